@@ -100,6 +100,8 @@ theorem until_sim {p : List PCmd} {n lb lk lc : Nat} {r : Reg} {N : Int} {o : PO
         · rename_i hs1 hb
           obtain ⟨ts1, hrun1, hinv1⟩ := hbody hs ts hs1 hinv hb
           split at hi
+          case h_1 => cases hi
+          split at hi
           · cases hi
           · rename_i v hv
             obtain ⟨ts2, hrun2, hinv2, hop⟩ := hbrk hs1 ts1 v hinv1 hv
